@@ -1112,6 +1112,10 @@ class Interp(object):
         if isinstance(v, Obj):
             if name in v.fields:
                 return v.fields[name]
+            lazy = v.meta.get('lazy')
+            if lazy and name in lazy:
+                lazy[name](self, v)
+                return v.fields[name]
             if name == '__class__':
                 return v.cls
             if name == '__dict__':
@@ -1138,7 +1142,7 @@ class Interp(object):
                 return getattr(self.resolve_enum(v), name)
             if name == 'value':
                 return SInt(v.t)
-            if name == 'name':
+            if name == 'name' and len(list(v.cls)) > 40:
                 return Opaque('str', 'enum.name', facts={'nonempty'})
             return getattr(self.resolve_enum(v), name)
         if isinstance(v, (SSeq, SInt, SBool, MutBytes, SList, SDict)) or \
@@ -1170,6 +1174,10 @@ class Interp(object):
                     return BoundMethod(cls or k, a.__func__, k)
                 if isinstance(a, property):
                     return self.call_value(BoundMethod(obj, a.fget, k), [], {})
+                if isinstance(obj, Obj) and obj.meta.get('db'):
+                    from . import dbmodel
+                    if dbmodel.is_orm_attribute(a):
+                        return dbmodel.db_getattr(self, obj, k, name, a)
                 if type(a).__name__ in ('wrapper_descriptor', 'method_descriptor',
                                         'builtin_function_or_method', 'getset_descriptor',
                                         'member_descriptor'):
@@ -1196,6 +1204,15 @@ class Interp(object):
                     self.raise_py(AttributeError, "can't set attribute")
                 self.call_value(BoundMethod(v, a.fset), [value], {})
                 return
+            if isinstance(v, Obj) and v.meta.get('db'):
+                old = v.fields.get(name)
+                if old is None and name not in v.fields:
+                    try:
+                        old = self.getattr(v, name)
+                    except Raised:
+                        old = None
+                self.path.event('db.mutate', id(v), name, old, value, bool(v.meta.get('attached')),
+                                v.cls.__name__)
             v.fields[name] = value
             self.path.event('field.write', id(v), name)
             return
